@@ -832,6 +832,41 @@ def run(chk):
 
     from verif import fallthrough
     fallthrough.run(chk, "C03", floor=2)
+    # ---- C03.backflow: nothing flows from the last snapshot into an earlier one
+    r_bf = chk.rule("C03.backflow", "Schedule.cpp: a statement that writes to an indexed snapshot `snapshots[k]` (a non-const member call or assignment through it) takes nothing from `snapshots.back()` - neither directly nor through a local reference bound to it: once the whole SCHEDULE section has been iterated, back() is the last report step, so the state at step k would depend on input of later steps.  ", floor=10)
+    bfx = chk.facts(["opm/input/eclipse/Schedule/Schedule.cpp"])
+    n_bf = 0
+    for f in bfx.fns:
+        if not f.get("body") or not f["file"].endswith("Schedule/Schedule.cpp"):
+            continue
+        alias = set()
+        for n in walk(f["body"]):
+            if n.get("k") == "Decl":
+                for v in n["vars"]:
+                    if v.get("ref") and isinstance(v.get("init"), dict) and re.match(r"this\.snapshots\.back\(\)", show(strip(v["init"]))):
+                        alias.add(v["n"])
+        for n in walk(f["body"]):
+            tgt = args = None
+            if n.get("k") == "MCall" and not n.get("const") and n.get("obj") is not None:
+                tgt, args = n["obj"], n.get("a") or []
+            elif n.get("k") == "Bin" and n.get("asg"):
+                tgt, args = n["c"][0], [n["c"][1]]
+            elif n.get("k") == "OpCall" and n.get("op") == "=" and len(n.get("a") or []) == 2:
+                tgt, args = n["a"][0], [n["a"][1]]
+            if tgt is None:
+                continue
+            tt = show(strip(tgt))
+            m_ = re.match(r"this\.snapshots\[(.+?)\]", tt)
+            if not m_:
+                continue
+            n_bf += 1
+            key = "%s@%d" % (f["n"], n["l"])
+            at = " ".join(show(a_) for a_ in args)
+            src = "this.snapshots.back()" in at or any(re.search(r"(?<![\w.])%s\b" % re.escape(a_), at) for a_ in alias)
+            chk.instance(r_bf, key, sample=dict(function=f["q"], target=tt[:80], from_back=src))
+            if src:
+                chk.violation(r_bf, key, "%s updates snapshots[%s] from snapshots.back() (%s): after the whole SCHEDULE section has been iterated that is the LAST report step, so the state at step %s depends on input that belongs to later steps" % (f["q"], m_.group(1), at[:120], m_.group(1)), f["file"], n["l"])
+
     from verif import moved
     moved.run(chk, "C03", r"^/repo/opm/input/eclipse/Schedule/", floor=95)
     from verif import argorder
